@@ -337,7 +337,9 @@ func (n *c13Net) remove(c *c13Conn) {
 		}
 	}
 	n.mu.Unlock()
-	c.closed.Store(true)
+	if !c.closed.Swap(true) && c.closedCh != nil {
+		close(c.closedCh)
+	}
 	c.resetStreams()
 }
 
@@ -374,6 +376,11 @@ type c13Conn struct {
 	dir     network.Direction
 	closed  atomic.Bool
 	script  c13Script
+	// blockOpen: the remote never acknowledges a new stream (a muxer whose stream-open waits for the remote, e.g.
+	// yamux with its backlog of unacknowledged streams full): NewStream returns when its context ends or the
+	// connection closes, not before
+	blockOpen bool
+	closedCh  chan struct{}
 
 	mu      sync.Mutex
 	streams []*c13Strm
@@ -388,7 +395,7 @@ func (n *c13Net) newConn(remote peer.ID, laddr, raddr ma.Multiaddr, limited bool
 	id := n.nextID
 	n.mu.Unlock()
 	return &c13Conn{net: n, id: fmt.Sprintf("c%d", id), local: n.local, remote: remote, laddr: laddr, raddr: raddr,
-		limited: limited, dir: network.DirOutbound, script: script}
+		limited: limited, dir: network.DirOutbound, script: script, closedCh: make(chan struct{})}
 }
 
 func (c *c13Conn) Close() error                               { c.net.remove(c); return nil }
@@ -411,6 +418,14 @@ func (c *c13Conn) NewStream(ctx context.Context) (network.Stream, error) {
 	c.mu.Lock()
 	c.opened++
 	c.mu.Unlock()
+	if c.blockOpen {
+		select {
+		case <-ctx.Done():
+			return nil, ctx.Err()
+		case <-c.closedCh:
+			return nil, network.ErrReset
+		}
+	}
 	if c.script == nil {
 		return nil, errors.New("c13: remote refuses streams")
 	}
